@@ -886,7 +886,7 @@ pub fn property() -> Property {
     Property {
         id: "C02",
         level: "exploration",
-        rule: "generated: 2-7 API-built rules with salience from {i32::MIN,-5,0,0,3,3,7,i32::MAX} (ties on purpose), enabled flag, no-loop, lock-on-active, agenda group in {MAIN,g1,g2}, activation group in {none,a1,a2}, date window on a 5-instant lattice; conditions flag==bool or constant true; actions trace(name) + flag assignments + ActivateAgendaGroup; histories of 3-8 steps from {execute_at_time(t strictly inside a lattice interval), execute() and execute_with_callback() at the real clock (which lies before the whole lattice), set_agenda_focus, activate_agenda_group (API), pop, clear, reset_no_loop_tracking, set_rule_enabled, flip a flag}; max_cycles 1..4; plus rule sets of 21-60 rules with 1-4 salience levels (an unstable sort only shows on slices > 20); plus exhaustive enumeration of a reduced attribute space for 3 rules x (execute, focus/reset step, execute). Oracle: model interpreter of the eligibility gate written from the statement (exact trace of every execute, rules_fired, active agenda group after every step). Returning to a group by pop/clear is not an activation (a lock-on-active rule that fired stays locked). Non-trivial: >= 2 executes and (salience tie with both firing, or activation-group contention with two true conditions, or a lock-on-active rule whose group was activated >= 2 times, or a rule suppressed by focus/date/enabled although its condition was true); distinct by structural hash of the case. Part timeout: 2-5 always-true MAIN rules (generated salience, no-loop 2/3), EngineConfig.timeout = 10 ms, one rule's action sleeps 30 ms the first time it runs (before or after the recording action), execute or execute_at_time, max_cycles 1..3, then a second call on the same engine; judged without any timing: no no-loop rule runs twice within a call, and a no-loop rule whose recording action ran in call 1 does not run in call 2. Non-trivial there: the first call returned Err, and the sleeping rule is no-loop and ran.",
+        rule: "generated: 2-7 API-built rules with salience from {i32::MIN,-5,0,0,3,3,7,i32::MAX} (ties on purpose), enabled flag, no-loop, lock-on-active, agenda group in {MAIN,g1,g2}, activation group in {none,a1,a2}, date window on a 5-instant lattice; conditions flag==bool or constant true; actions trace(name) + flag assignments + ActivateAgendaGroup; histories of 3-8 steps from {execute_at_time(t strictly inside a lattice interval), execute() and execute_with_callback() at the real clock (which lies before the whole lattice), set_agenda_focus, activate_agenda_group (API), pop, clear, reset_no_loop_tracking, set_rule_enabled, flip a flag}; max_cycles 1..4; plus rule sets of 21-60 rules with 1-4 salience levels (an unstable sort only shows on slices > 20); plus exhaustive enumeration of a reduced attribute space for 3 rules x (execute, focus/reset step, execute). Oracle: model interpreter of the eligibility gate written from the statement (exact trace of every execute, rules_fired, active agenda group after every step). Returning to a group by pop/clear is not an activation (a lock-on-active rule that fired stays locked). Non-trivial: >= 2 executes and (salience tie with both firing, or activation-group contention with two true conditions, or a lock-on-active rule whose group was activated >= 2 times, or a rule suppressed by focus/date/enabled although its condition was true); distinct by structural hash of the case. Part timeout: 2-5 always-true MAIN rules (generated salience, no-loop 2/3), EngineConfig.timeout = 10 ms, one rule's action sleeps 30 ms the first time it runs (before or after the recording action), execute or execute_at_time, max_cycles 1..3, then a second call on the same engine; judged without any timing: no no-loop rule runs twice within a call, and a no-loop rule whose recording action ran in call 1 does not run in call 2. Non-trivial there: the first call returned Err, and the sleeping rule is no-loop and ran. Half of the random cases take their three agenda group names from look-alike tables (orders / orders::priority, a.b / a, MAIN::x / main).",
         assumptions: vec!["date boundaries are excluded by construction (evaluation instants lie strictly inside lattice intervals)".into(), "rules_evaluated is not compared".into()],
         parts: vec![
             Part { name: "random", run, quick: Budget::Random { cases: 1_000_000, bytes: 300 }, thorough: Budget::Random { cases: 20_000_000, bytes: 300 }, min_nontrivial_pct: 30 },
